@@ -26,6 +26,8 @@ od(N, yes) :- once(down(N)).
 od(_, no).
 ng(N, R) :- ( \+ down(N) -> R = no ; R = yes ).
 two(X, Y) :- q(X), down(Y).
+same(X, X).
+eql(A, B) :- A = B.
 """
 
 
@@ -59,9 +61,9 @@ class C17(Prop):
     technique = 'property-based differential testing (Hypothesis) of evaluate_bounded against a plain loop under the same recursion limit, the reference interpreter, and itself under a larger limit (metamorphic prefix relation); fault injection in the projection function'
     rule = ('queries from a family (finite shallow facts; finite but deep: len/2 on a list of length n, down/1 on a '
             'Peano number; left-recursive without answers; infinitely many answers at growing depth: nat/1, cnt/2; goals '
-            'through findall/once/negation whose inner search is too deep; two-goal conjunctions; a registered Python predicate that yields True; a predicate combined from two scripts whose first clause ends in a cut; a predicate with asserted facts beside its compiled clauses) with generated sizes, '
+            'through findall/once/negation whose inner search is too deep; two-goal conjunctions; a registered Python predicate that yields True; a predicate combined from two scripts whose first clause ends in a cut; a predicate with asserted facts beside its compiled clauses; two lists of n elements unified with each other through same(X,X) / A = B) with generated sizes, '
             'plus random generic programs, x recursion limits from 25 to 465 frames above the caller x projection '
-            'functions that return the answer, raise ValueError / a RuntimeError subclass at answer k, or recurse deeply '
+            'functions that return the answer, raise ValueError / a RuntimeError subclass at answer k, run a nested evaluate_bounded on the same engine with another limit, or recurse deeply '
             'themselves x the interpreter\'s own limit before the call (generous, or LOWER than the requested limit). Oracles: no RecursionError (or other exception than the projection\'s own non-RuntimeError) '
             'escapes; if a plain loop with the identical frame shape completes under the same limit, the result equals '
             'that list and R\'s answers; otherwise it agrees with R\'s answer prefix; the result under limit L and the '
@@ -89,7 +91,7 @@ class C17(Prop):
         extra_scripts = []
         special = src.n(8)
         if special == 7:
-            k = 100 + src.n(3)
+            k = 100 + src.n(4)
         if k == 100:
             q = ('f', 'pyq', (X,))
             pyfunc = {'name': 'pyq', 'rows': [[('a', 'r1')], [('a', 'r2')], [('a', 'r3')]], 'yields': [bool(src.n(2)), True, bool(src.n(2))]}
@@ -101,6 +103,16 @@ class C17(Prop):
             # col/1 is combined from two scripts (overwrite off); the clause of the first one ends in a cut
             q = ('f', 'col', (X,))
             extra_scripts = [[(('f', 'col', (('a', 'red'),)), ('cut',))], [(('f', 'col', (('a', 'green'),)), ('true',)), (('f', 'col', (('a', 'blue'),)), ('true',))]]
+        elif k == 103:
+            # two structures of depth n unified with each other (not with a fresh variable, as clause heads do):
+            # doing and undoing that unification both need stack depth
+            if src.n(3):
+                l1 = mklist([('v', 'E%d' % i) if (i % 3 or src.n(2)) else ('a', 'a%d' % i) for i in range(n)], Y if src.n(3) == 0 else NIL)
+                l2 = mklist([('a', 'a%d' % i) for i in range(n)], mklist([('a', 'c')]) if src.n(4) == 0 else NIL)
+            else:
+                l1 = mklist([X] + [('a', 'a')] * n, Y if src.n(2) else NIL)
+                l2 = mklist([('a', 'b')] + [('a', 'a')] * n, mklist([('a', 'c')]) if src.n(2) else NIL)
+            q = ('f', src.pick(['same', 'eql']), (l1, l2) if src.n(2) else (l2, l1))
         elif k == 0:
             q = ('f', 'q', (X,))
         elif k == 1:
@@ -142,10 +154,13 @@ class C17(Prop):
             preds, clauses = gen.gen_program(src, self.CFG)
             q = gen.gen_query(src, preds, self.CFG, clauses)
             text = gen.program_text(clauses)
-        proj = src.pick(['value', 'value', 'value', 'raise-value', 'raise-runtime', 'deep-recursion'])
+        proj = src.pick(['value', 'value', 'value', 'raise-value', 'raise-runtime', 'deep-recursion', 'value', 'nested'])
         if (dyn or pyfunc or extra_scripts) and src.n(2):
             proj = 'raise-value'
-        return {'text': text, 'clauses': clauses, 'query': q, 'limit_delta': 25 + src.n(6) * src.n(6) * 16 + src.n(40),
+        delta = 25 + src.n(6) * src.n(6) * 16 + src.n(40)
+        if k == 103 and src.n(4):
+            delta = max(25, 2 * n + src.n(n + 40))        # around the depth that doing / undoing the unification needs
+        return {'text': text, 'clauses': clauses, 'query': q, 'limit_delta': delta,
                 'proj': proj, 'k': src.n(5), 'proj_depth': src.pick([5, 40, 200, 2000]), 'dyn': dyn, 'pyfunc': pyfunc, 'extra_scripts': extra_scripts,
                 'interpreter_limit': src.pick(['high', 'high', 'low'])}
 
@@ -167,6 +182,14 @@ class C17(Prop):
 
     # ------------------------------------------------------------------
     def run_once(self, code, q, delta, proj_kind, k, proj_depth, mode, dyn=(), interp='high', pyfunc=None, extra_scripts=()):
+        if getattr(self, '_family_case', False):
+            # family programs: known cost, so the engine runs without the harness's counting wrapper (same frames per
+            # level as in real use)
+            with impl.without_work_counter():
+                return self._run_once(code, q, delta, proj_kind, k, proj_depth, mode, dyn, interp, pyfunc, extra_scripts)
+        return self._run_once(code, q, delta, proj_kind, k, proj_depth, mode, dyn, interp, pyfunc, extra_scripts)
+
+    def _run_once(self, code, q, delta, proj_kind, k, proj_depth, mode, dyn=(), interp='high', pyfunc=None, extra_scripts=()):
         """mode 'bounded' -> YP.evaluate_bounded; mode 'plain' -> plain loop with the identical frame shape.
         returns dict(result, completed, escaped, limit_after, bound_after, boundvars_after)"""
         gc.collect()
@@ -185,6 +208,7 @@ class C17(Prop):
         vmap = {}
         eargs = [impl.to_engine(yp, a, vmap) for a in args]
         cnt = {'i': 0}
+        nested_results = []
 
         def value():
             return impl.flat(eargs)       # iterative: the projection itself needs no recursion depth
@@ -201,6 +225,11 @@ class C17(Prop):
                 raise ProjRuntimeError('projection')
             if proj_kind == 'deep-recursion' and cnt['i'] > k:
                 rec(proj_depth)
+            if proj_kind == 'nested':
+                # the projection asks the same engine a second, bounded question per answer (with another limit)
+                inner = yp.variable()
+                got = yp.evaluate_bounded(yp.query('q', [inner]), lambda x: impl.flat([inner]), recursion_limit=depth_now() + 40 + 13 * (cnt['i'] % 3))
+                nested_results.append(len(got))
             return v
         g = yp.query(name, eargs)
         old = sys.getrecursionlimit()
@@ -274,6 +303,7 @@ class C17(Prop):
         return res, completed
 
     def decide(self, case):
+        self._family_case = case['clauses'] is None
         q = tt(case['query'])
         comp = C.compile_case(case['text'])
         if comp[0] == 'exc':
@@ -336,7 +366,7 @@ class C17(Prop):
                 return FAIL('result-is-not-a-prefix-of-the-answers', dict(detail, result=[str(x)[:200] for x in res[:6]]))
             if st == 'done' and len(res) > len(ref):
                 return FAIL('result-has-extra-answers', dict(detail, result=[str(x)[:200] for x in res[:6]]))
-            if kind == 'value':
+            if kind in ('value', 'nested'):
                 p = self.run_once(code, q, delta, kind, k, case['proj_depth'], 'plain', dyn, 'high', pyfunc, extra_scripts)
                 if p['completed'] is True:
                     if res != p['result']:
@@ -396,6 +426,7 @@ def parse_family():
         (f('fa', V('L')), call(f('findall', V('X'), f('nat', V('X')), V('L')))),
         (f('fa', A('none')), T),
         (f('cnt', V('N'), V('N')), T), (f('cnt', V('N'), V('M')), call(f('cnt', f('s', V('N')), V('M')))),
+        (f('same', V('X'), V('X')), T), (f('eql', V('A'), V('B')), call(f('=', V('A'), V('B')))),
         (f('mem', V('X'), lp(V('X'), V('_1'))), T), (f('mem', V('X'), lp(V('_1'), V('T'))), call(f('mem', V('X'), V('T')))),
         (f('app', NIL, V('L'), V('L')), T),
         (f('app', lp(V('H'), V('T')), V('L'), lp(V('H'), V('R'))), call(f('app', V('T'), V('L'), V('R')))),
